@@ -29,6 +29,7 @@
   event handlers one at a time, in arrival order       events_serial
 -/
 import Nexus.Client.RendezvousAll
+import Nexus.Client.ProgressiveProps
 import Nexus.Client.InvokeProps
 
 namespace Nexus.C16
@@ -181,6 +182,28 @@ theorem invocation_once (cfg : I.Cfg) (st : I.State) (hr : I.Reachable cfg st) :
     fun i hg ho hn => I.stale_invocation_ignored cfg st i hg ho hn,
     fun i w hg hl hf => I.repeated_final_dropped cfg st i w hg hl hf, hi.matching.2.1⟩
 
+/-- "progressive chunks in order to the same run", at the level of the whole history: for every worker
+    (one handler run per invocation id, `invocation_once`), the sequence of INVOCATION messages its
+    handler has been given is a prefix of the sequence accepted from the router for that worker, in
+    the same order; while the worker is live the messages not yet given are exactly its queue, in
+    order; everything given carries the worker's (registration, request). -/
+theorem chunks_in_order (cfg : I.Cfg) (st : I.State) (hr : I.Reachable cfg st) (w : Nat) :
+    (st.ws w).handled.reverse <+: (st.ws w).accepted.reverse ∧
+    ((st.ws w).live = true → (st.ws w).accepted.reverse = (st.ws w).handled.reverse ++ (st.ws w).queue) ∧
+    (∀ i ∈ (st.ws w).handled, i.req = (st.ws w).req ∧ i.reg = (st.ws w).reg) := by
+  have hi := I.allInv_reachable cfg st hr
+  obtain ⟨rest, hrest⟩ := hi.prefix_.2.1 w
+  refine ⟨⟨rest.reverse, by rw [hrest, List.reverse_append]⟩, fun hl => ?_, hi.matching.2.1 w⟩
+  rw [hi.prefix_.1 w hl, List.reverse_append, List.reverse_reverse]
+
+/-- Non-vacuity: three chunks accepted, two given to the handler so far, the third waiting. -/
+example : ((I.steps {} {} [.recvInvocation { req := 7, reg := 3, details := [(N.OptProgress, .bool true)], args := [.int 1] } true,
+      .innerTake 0, .recvInvocation { req := 7, reg := 3, details := [(N.OptProgress, .bool true)], args := [.int 2] } true,
+      .handlerReturn 0 { err := N.InternalProgressiveOmitResult } false, .innerTake 0,
+      .recvInvocation { req := 7, reg := 3, args := [.int 3] } true]).map
+    (fun st => ((st.ws 0).accepted.length, (st.ws 0).handled.length, (st.ws 0).queue.length))) = some (3, 2, 1) := by
+  decide
+
 /-- Today the gate is in place. -/
 theorem gate_in_place : ({} : I.Cfg).invGate = true := by decide
 
@@ -199,6 +222,31 @@ example : (I.steps {} {} [.recvInvocation { req := 7, reg := 3 } true, .innerTak
     .outerTake 0, .outerAnswer 0 false]).map
     (fun st => (st.ws 0).outer.answered && List.countP (I.isAnswer 0) st.out == 1) = some true := by decide
 
+/-! ## SendProgress (callee side) -/
+
+/-- A handler's `SendProgress` sends a YIELD with the invocation's own request id and
+    `progress: true`, only for an invocation whose caller asked for progressive results and whose
+    gate is still there (regenerated: the `progGate` lookup, the `progress: true` literal, the select
+    of the send); otherwise it is refused and nothing is sent. Progressive YIELDs are not answers
+    (`one_answer` counts the final YIELD / ERROR). -/
+theorem send_progress (cfg : I.Cfg) (st : I.State) (hr : I.Reachable cfg st) :
+    (Client.sendProgressGateChecked = true ∧ Client.sendProgressMarksProgress = true ∧
+      Client.sendProgressSelect = ["send c.sess.Send()", "recv ctx.Done()"]) ∧
+    (∀ w, (st.ws w).spArmed = true → (st.ws w).progOK = true ∧ w < st.n) ∧
+    (∀ w st', I.step cfg st (.spSend w) = some st' →
+      st'.out = .progressSent w :: .send (.yield (st.ws w).req true) :: st.out) ∧
+    (∀ w st', ((st.ws w).progOK && st.progGate (st.ws w).req) = false →
+      I.step cfg st (.spCheck w) = some st' → st' = st.emit (.progressRefused w)) :=
+  ⟨by decide, (I.allInv_reachable cfg st hr).sp, fun w st' h => I.spSend_sends cfg st st' w h,
+   fun w st' hg h => I.spCheck_refuses cfg st st' w hg h⟩
+
+/-- Observation (a race, not covered by the property's sentence): a handler that ignores its
+    cancelled context and is inside `SendProgress` when the worker answers the INTERRUPT can still
+    send its progressive YIELD after the invocation's ERROR (both cases of the select are ready). -/
+theorem send_progress_after_answer_possible :
+    (I.steps {} {} I.progressAfterAnswer).map (fun st => st.out.filterMap fun o => match o with | .send m => some m | _ => none) =
+      some [.yield 7 true, .error I.tINVOCATION 7 N.ErrCanceled] := I.progress_after_answer_possible
+
 /-! ## events_serial -/
 
 /-- Event handlers run one at a time (starts and ends alternate; one is open exactly while the
@@ -210,6 +258,86 @@ theorem events_serial (cfg : R.Cfg) (st : R.State) (hr : R.Reachable cfg st) :
     (R.recvLog st.out).reverse ++ st.inbox.filterMap id = st.arrived.reverse := by
   have hi := R.allInv_reachable cfg st hr
   exact ⟨hi.events.2.1, hi.events.1, hi.events.2.2, hi.fifo⟩
+
+/-! ## CallProgressive -/
+
+/-- `CallProgressive` is `Call` with `sendProg` in front and one more goroutine (regenerated skeletons of
+    the two API functions: the same calls, channel operations and go statements in the same order):
+    its API goroutine is the waiter of `Nexus.Client.R`, so `correlation`, `reply_once`,
+    `progress_order_and_closure` and `cancel_sends_cancel` speak about it as they do about `Call`. -/
+theorem callProgressive_is_call_plus_sender :
+    Client.callProgressiveSkeleton.filter (fun s => s != "sendProg" && s != "go") =
+      Client.callSkeleton.filter (· != "go") ∧
+    Client.callSkeleton.count "go" = 1 ∧ Client.callProgressiveSkeleton.count "go" = 2 ∧
+    Client.callProgressiveSkeleton.take 2 = ["c.Connected", "sendProg"] ∧
+    Client.progSenderOps = ["sendProg", "send c.sess.Send() wamp.Cancel", "return", "c.prepareCallPayloadMessage",
+      "send c.sess.Send() wamp.Cancel", "return", "send c.sess.Send() message"] ∧
+    ({} : P.Cfg).bare = true := by decide
+
+/-- The waiter's side of every run of waiter + sender is a run of `R` (so the `R` theorems apply to
+    it under every interleaving with the sender). -/
+theorem callProgressive_waiter (cfg : RP.Cfg) (st : RP.State) (hr : RP.Reachable cfg st) :
+    R.Reachable cfg.r st.r := RP.r_reachable cfg st hr
+
+/-- What the sender goroutine of call `g` sends, in every reachable state: chunks with
+    `progress: true`, then — exactly when it has exited — one final chunk or one CANCEL; never
+    anything after that; all with the call's request id and procedure. -/
+theorem sender_sends_shape (cfg : RP.Cfg) (st : RP.State) (hr : RP.Reachable cfg st) (g : Nat) :
+    P.Shape cfg.p st.p g := RP.sender_shape cfg st hr g
+
+/-- Every CANCEL of a waiter carries the configured mode; every CANCEL of a sender carries
+    `wamp.CancelModeKillNoWait`, whatever is configured (regenerated: the mode expression of both
+    `wamp.Cancel` literals in the goroutine). -/
+theorem cancel_modes (cfg : RP.Cfg) (st : RP.State) (hr : RP.Reachable cfg st) (hb : st.r.drawn < 2 ^ 53)
+    (hp : cfg.p = {}) :
+    (∀ q ∈ R.cancelsOf st.r.out, q.2 = cfg.r.cancelMode) ∧
+    (∀ q ∈ P.cancelsOf st.p.out, q.2 = "killnowait") := by
+  refine ⟨(cancel_sends_cancel cfg.r st.r (RP.r_reachable cfg st hr) hb).1, fun q hq => ?_⟩
+  have := RP.sender_cancel_mode cfg st hr q hq
+  rw [hp] at this
+  exact this.trans P.sender_mode_today
+
+/-- Full strength "every CANCEL sent for a call carries the configured mode" … -/
+def cancel_configured_mode_full (cfg : RP.Cfg) : Prop :=
+  ∀ evs st, RP.steps cfg {} evs = some st →
+    (∀ q ∈ R.cancelsOf st.r.out, q.2 = cfg.r.cancelMode) ∧ (∀ q ∈ P.cancelsOf st.p.out, q.2 = cfg.r.cancelMode)
+
+/-- … is FALSE for `CallProgressive` under any configured mode other than the default (finding
+    candidate): the caller's context ends while `sendProg`, which honours it, waits for the next
+    chunk; the waiter sends CANCEL{mode: kill} as configured and the sender sends a second
+    CANCEL for the same request with mode killnowait (`RP.doubleCancel`). -/
+theorem cancel_configured_mode_full_fails :
+    ¬ cancel_configured_mode_full { r := { cancelMode := "kill" } } := by
+  intro h
+  have hw : (RP.steps { r := { cancelMode := "kill" } } {} RP.doubleCancel).map
+      (fun st => (R.cancelsOf st.r.out, P.cancelsOf st.p.out)) = some ([(1, "kill")], [(1, "killnowait")]) := by decide
+  cases hs : RP.steps { r := { cancelMode := "kill" } } {} RP.doubleCancel with
+  | none => rw [hs] at hw; simp at hw
+  | some st =>
+    rw [hs] at hw
+    simp at hw
+    have := (h _ st hs).2 (1, "killnowait") (by rw [hw.2]; simp)
+    simp at this
+
+/-- Partial, with the exact guard: under the default mode (killnowait) every CANCEL carries the
+    configured mode. -/
+theorem cancel_configured_mode_partial (cfg : RP.Cfg) (hp : cfg.p = {}) (hm : cfg.r.cancelMode = "killnowait")
+    (st : RP.State) (hr : RP.Reachable cfg st) (hb : st.r.drawn < 2 ^ 53) :
+    (∀ q ∈ R.cancelsOf st.r.out, q.2 = cfg.r.cancelMode) ∧ (∀ q ∈ P.cancelsOf st.p.out, q.2 = cfg.r.cancelMode) := by
+  obtain ⟨h1, h2⟩ := cancel_modes cfg st hr hb hp
+  exact ⟨h1, fun q hq => (h2 q hq).trans hm.symm⟩
+
+/-- The sender watches neither the call's return nor Done (finding candidate, leak): after the call
+    has returned it goes on pulling chunks and sending CALLs for the finished request … -/
+theorem sender_outlives_call :
+    (RP.steps {} {} RP.senderOutlivesCall).map (fun st =>
+      (match (st.r.ws 1).phase with | .returned _ => true | _ => false) &&
+      P.sendsOf 1 st.p.out == [.callChunk 1 "p" false true]) = some true := by decide
+
+/-- … and after `Close()` its next send panics (one more instance of open finding F43). -/
+theorem sender_after_close_panics :
+    (RP.steps {} {} RP.senderAfterClose).map (fun st => (st.r.close, st.p.crashed)) =
+      some (.returned, some "send on closed channel") := by decide
 
 /-- "issued from any number of goroutines": every goroutine entering the client API, and the dealer
     for invocation ids, draws from `Session.IDGen`; `ids_unique` speaks of one sequential generator, so
